@@ -214,7 +214,7 @@ Scaffold(c0) ==
           [] e.ctx = "landingpad" -> <<Blk(nm("entry"), <<>>, InvokeH(2, 3)), Blk(nm("t1"), <<>>, RetVoid), Blk(nm("t2"), <<I>>, RetVoid)>>
           [] e.ctx = "catchswitch" ->
                <<Blk(nm("entry"), <<>>, InvokeH(2, 3)), Blk(nm("t1"), <<>>, RetVoid), Blk(nm("cs"), <<>>, I)>>
-               \o [j \in 1..nh |-> Blk(nm("h" \o ToString(j)), <<CatchPad0(nm("cp"), 3)>>, CatchRet(RInst(3 + j, 1), 2))]
+               \o [j \in 1..nh |-> Blk(nm("h" \o ToString(j)), <<CatchPad0(nm("cp" \o ToString(j)), 3)>>, CatchRet(RInst(3 + j, 1), 2))]
                \o (IF c.cfg.cnt[3] = 1 THEN <<Blk(nm("uw"), <<CleanupPad0(nm("cl"))>>, CleanupRetCaller(RInst(4 + nh, 1)))>> ELSE <<>>)
           [] e.ctx = "catchpad" ->
                <<Blk(nm("entry"), <<>>, InvokeH(2, 3)), Blk(nm("t1"), <<>>, RetVoid), Blk(nm("cs"), <<>>, CatchSwitch1(nm("s"), 4)),
@@ -246,21 +246,30 @@ CExprProg(c) ==
       x == CExpr(c.kind, c.cls, c.flags, c.attrs, c.ty, c.res, vals)
   IN Prog(CaseId(c), "cexpr", BaseDecls \o <<DefGlobal("r", c.res, x)>>, NoFn)
 
-\* every constant form as a global initialiser
+\* every constant form as a global initialiser; each entry: <<tag, constant>>
+\* (floating-point values are exactly representable in their type: rounding of literals is C10's subject;
+\*  LLVM does not allow scalable vectors in globals)
 ConstForms == <<
-  CInt(I1, 1), CInt(I1, 0), CInt(I8, -1), CInt(I8, 127), CInt(I32, -2147483647), CInt(I32, 0), CInt(I64, 2147483647),
-  CBytes(I64, <<255, 255, 255, 255, 255, 255, 255, 127>>), CBytes(I64, <<0, 0, 0, 0, 0, 0, 0, 128>>), CBytes(I32, <<0, 0, 0, 128>>),
-  [c |-> "fp", ty |-> F32, v |-> "1.0"], [c |-> "fp", ty |-> F64, v |-> "-0.5"], [c |-> "fp", ty |-> F64, v |-> "1e300"],
-  [c |-> "fp", ty |-> F32, v |-> "0.1"], [c |-> "fp", ty |-> F64, v |-> "0.1"],
-  CSimple("null", TyPtr(I32)), CSimple("null", I8Ptr), CSimple("undef", I32), CSimple("undef", Concrete.vec), CSimple("undef", PairTy),
-  CSimple("poison", I32), CSimple("poison", Concrete.fvec), CSimple("zero", Concrete.arr), CSimple("zero", PairTy),
-  CSimple("zero", Concrete.vec), CSimple("zero", Concrete.svec), CSimple("zero", Concrete.nstruct),
-  ConstOf(Concrete.arr, 1), ConstOf(Concrete.vec, 1), ConstOf(Concrete.fvec, 1), ConstOf(PairTy, 1), ConstOf(Concrete.nstruct, 1),
-  ConstOf(Concrete.nested, 1), ConstOf(Concrete.pvec, 1), ConstOf(TyArr(2, PairTy), 1), ConstOf(TyArr(0, I32), 1),
-  [c |-> "chars", ty |-> TyArr(3, I8), v |-> "abc"], [c |-> "chars", ty |-> TyArr(4, I8), v |-> "a\"b\\"],
-  GI32, GI8, CGRef("h", HTy), [c |-> "no_cfi", name |-> "h", ty |-> HTy]
+  <<"i1-true", CInt(I1, 1)>>, <<"i1-false", CInt(I1, 0)>>, <<"i8-neg", CInt(I8, -1)>>, <<"i8-max", CInt(I8, 127)>>,
+  <<"i32-min1", CInt(I32, -2147483647)>>, <<"i32-zero", CInt(I32, 0)>>, <<"i64-pos", CInt(I64, 2147483647)>>,
+  <<"i64-max", CBytes(I64, <<255, 255, 255, 255, 255, 255, 255, 127>>)>>, <<"i64-min", CBytes(I64, <<0, 0, 0, 0, 0, 0, 0, 128>>)>>,
+  <<"i32-min", CBytes(I32, <<0, 0, 0, 128>>)>>, <<"i16", CBytes(I16, <<52, 18>>)>>,
+  <<"float-one", [c |-> "fp", ty |-> F32, v |-> "1.0"]>>, <<"double-neg", [c |-> "fp", ty |-> F64, v |-> "-0.5"]>>,
+  <<"double-big", [c |-> "fp", ty |-> F64, v |-> "1e300"]>>, <<"float-frac", [c |-> "fp", ty |-> F32, v |-> "0.15625"]>>,
+  <<"double-inexact-decimal", [c |-> "fp", ty |-> F64, v |-> "0.1"]>>, <<"double-zero", [c |-> "fp", ty |-> F64, v |-> "0.0"]>>,
+  <<"null-i32p", CSimple("null", TyPtr(I32))>>, <<"null-i8p", CSimple("null", I8Ptr)>>, <<"undef-i32", CSimple("undef", I32)>>,
+  <<"undef-vec", CSimple("undef", Concrete.vec)>>, <<"undef-struct", CSimple("undef", PairTy)>>,
+  <<"poison-i32", CSimple("poison", I32)>>, <<"poison-fvec", CSimple("poison", Concrete.fvec)>>,
+  <<"zero-arr", CSimple("zero", Concrete.arr)>>, <<"zero-struct", CSimple("zero", PairTy)>>,
+  <<"zero-vec", CSimple("zero", Concrete.vec)>>, <<"zero-nstruct", CSimple("zero", Concrete.nstruct)>>,
+  <<"arr", ConstOf(Concrete.arr, 1)>>, <<"vec", ConstOf(Concrete.vec, 1)>>, <<"fvec", ConstOf(Concrete.fvec, 1)>>,
+  <<"struct", ConstOf(PairTy, 1)>>, <<"nstruct", ConstOf(Concrete.nstruct, 1)>>,
+  <<"nested", ConstOf(Concrete.nested, 1)>>, <<"pvec", ConstOf(Concrete.pvec, 1)>>, <<"arr-of-struct", ConstOf(TyArr(2, PairTy), 1)>>,
+  <<"arr-empty", ConstOf(TyArr(0, I32), 1)>>,
+  <<"chars", [c |-> "chars", ty |-> TyArr(3, I8), v |-> "abc"]>>, <<"chars-escapes", [c |-> "chars", ty |-> TyArr(4, I8), v |-> "a\"b\\"]>>,
+  <<"gref-global", GI32>>, <<"gref-i8", GI8>>, <<"gref-func", CGRef("h", HTy)>>, <<"no_cfi", [c |-> "no_cfi", name |-> "h", ty |-> HTy]>>
 >>
-ConstProg(i) == Prog("const:" \o ToString(i), "const", BaseDecls \o <<DefGlobal("c", ConstForms[i].ty, ConstForms[i])>>, NoFn)
+ConstProg(i) == Prog("const:" \o ConstForms[i][1], "const", BaseDecls \o <<DefGlobal("c", ConstForms[i][2].ty, ConstForms[i][2])>>, NoFn)
 
 \* module-level constructors: aliases, ifuncs, type definitions, unnamed globals, constants that need a function
 ModuleProgs == <<
